@@ -674,6 +674,9 @@ func main() {
 	}
 	fixtures := append(append([]space.Fixture{}, blocks...), standalone(blocks, maxTx)...)
 	if c.Replay != "" {
+		if r, err := loadReplay(c.Replay); err == nil && strings.HasPrefix(r.Fixture, "reuse:") {
+			replayReuse(blocks, r)
+		}
 		replay(fixtures)
 		return
 	}
@@ -727,6 +730,14 @@ func main() {
 	h := handle
 	if os.Getenv("VERIF_DRY") != "" {
 		h = func(v *Variant) {}
+	}
+	// history dimension first (cheap): second decode into a receiver that holds a decoded artefact
+	if os.Getenv("VERIF_DRY") == "" && os.Getenv("VERIF_ONLY") == "" {
+		maxItems := 4
+		if c.Thorough() {
+			maxItems = 7
+		}
+		runReuse(blocks, maxItems)
 	}
 	st := enumerate(c, plans, d2mode, deadline, h)
 	resolvePending(false)
